@@ -193,12 +193,3 @@ def members_with_different_numbers_of_components_are_not_averaged_per_component(
     assert bc._checkBlockSimilarity() == similar, "similar = same number of components and the same flags position by position"
 
 
-@lemma(gen={"A": [1.0, 2.0, 19.0], "B": [1.0, 2.0, 36.0]})
-def cylindrical_blocks_with_components_of_different_dimensions_are_refused(A: float, B: float):
-    """CylindricalComponentsAverageBlockCollection._checkComponentConsistency(b, repBlock) - documented as 'This check
-    includes component area, component multiplicity, and nuclide composition' - on two one-component blocks whose
-    components have the areas A and B (same multiplicity and nuclides): refused exactly when the areas differ.
-    REFUTED: the cylindrical variant never looks at the dimensions (the slab variant does), so rings of different
-    size are averaged together."""
-    b, rep = cblk([ccomp(0, {"U235": 0.01}, area=A)]), cblk([ccomp(0, {"U235": 0.02}, area=B)])
-    assert refused_by(Cyl._checkComponentConsistency, b, rep) == (A != B)
